@@ -29,30 +29,36 @@ inductive Report
 /-- dtype acceptance: `not DTYPES or tensor.dtype in DTYPES`, class id × dtype -/
 abbrev Acc := Nat → DT → Bool
 
+/-- `adjusted_idx`: index into the actual tensor of declared axis `idx` -/
+def adjIdx (ann : Ann) (rank idx : Nat) : Nat :=
+  match ann.multiIdx with
+  | some mi => if idx > mi then idx + rank - ann.dims.length else idx
+  | none => idx
+
 /-- the literal-axis loop of `check` -/
 def checkLiterals (tname : Name) (ann : Ann) (shape : List Nat) : List (Nat × Int) → Except Report Unit
   | [] => .ok ()
   | (idx, lit) :: rest =>
-    let adj := match ann.multiIdx with
-      | some mi => if idx > mi then idx + shape.length - ann.dims.length else idx
-      | none => idx
+    let adj := adjIdx ann shape.length idx
     match shape[adj]? with
     | none => .ok ()     -- unreachable after the rank test (Python would raise IndexError)
     | some a =>
       if Int.ofNat a ≠ lit then .error (.shape tname adj lit (Int.ofNat a))
       else checkLiterals tname ann shape rest
 
+/-- the rank test at the top of `check` -/
+def rankCheck (ann : Ann) (shape : List Nat) (tname : Name) : Except Report Unit :=
+  match ann.multiIdx with
+  | some _ =>
+    if shape.length < ann.dims.length - 1
+    then .error (.ndims tname (Int.ofNat (ann.dims.length - 1)) shape.length) else .ok ()
+  | none =>
+    if shape.length ≠ ann.dims.length
+    then .error (.ndims tname (Int.ofNat ann.dims.length) shape.length) else .ok ()
+
 /-- `TensorTypeBase.check(tensor, tensor_name)` -/
 def check (acc : Acc) (ann : Ann) (t : Tensor) (tname : Name) : Except Report Unit :=
-  let rankOk : Except Report Unit :=
-    match ann.multiIdx with
-    | some _ =>
-      if t.shape.length < ann.dims.length - 1
-      then .error (.ndims tname (Int.ofNat (ann.dims.length - 1)) t.shape.length) else .ok ()
-    | none =>
-      if t.shape.length ≠ ann.dims.length
-      then .error (.ndims tname (Int.ofNat ann.dims.length) t.shape.length) else .ok ()
-  match rankOk with
+  match rankCheck ann t.shape tname with
   | .error r => .error r
   | .ok () =>
     if !acc ann.cls t.dt then .error (.dtype tname)
